@@ -167,9 +167,12 @@ def run_stream(ctx, prop, st, seeds):
                 if name not in [b0.split(" ")[0] for b0 in ctx.broken]:
                     ctx.broken.append(f"{name} first-disagreement: op `{o}` impl `{i}` model `{m}` (batch {tag})")
         if "post" in st:
-            for a_op, b_op, why in st["post"](ctx, ops, impl)[:2]:
+            for item in st["post"](ctx, ops, impl)[:2]:
                 total["fails"] += 1
-                case = [a_op, b_op]
+                if len(item) == 2:
+                    case, why = list(item[0]), item[1]
+                else:
+                    case, why = [item[0], item[1]], item[2]
                 im2, mo2, ve2 = run_stream_once(ctx, st, binpath, case, "rep")
                 p = write_replay(ctx, f"{st['name']}-{len(ctx.violations)}", dict(
                     kind="failing-input", stream=st["name"], pkg=st["pkg"], ops=case, impl=im2, model=mo2, verdict=ve2,
